@@ -251,7 +251,7 @@ pub fn judge_real(
         if so.contains("Note: including file:") {
             rep.violation("showincludes-line-shown", "a `Note: including file:` line reached the user", mk());
         }
-        for s in proj_before.steps.iter().filter(|s| s.msvc && ok_set.contains(&s.id)) {
+        for s in proj_before.steps.iter().filter(|s| s.msvc && started_set.contains(&s.id)) {
             if !so.contains(&format!("{}: compiling", s.id)) {
                 rep.violation("output-line-lost", &format!("ordinary output line of {} missing from n2's output", s.id), mk());
             }
@@ -343,7 +343,7 @@ fn general_case(ctx: &Ctx, env: &RealEnv, dir: &std::path::Path, case: u64, seed
         }
         let nonphony: Vec<String> = w.proj.steps.iter().filter(|s| !s.phony && s.effect != Effect::Generator).map(|s| s.id.clone()).collect();
         let fault_p = if prop == "C05" { 3 } else { 1 };
-        if rng.chance(fault_p, 5) && !nonphony.is_empty() && matches!(prop, "C05" | "C01" | "C04" | "C19" | "C02") {
+        if rng.chance(fault_p, 5) && !nonphony.is_empty() && matches!(prop, "C05" | "C01" | "C04" | "C19" | "C02" | "C09") {
             for _ in 0..rng.range(1, 2) {
                 let s = rng.pick(&nonphony).clone();
                 inv.faults.insert(s.clone(), *rng.pick(&[FailMode::Nothing, FailMode::All, FailMode::Some]));
